@@ -14,6 +14,7 @@ HasZ(ct) == ct \in {"XYZ","XYZM"}
 HasM(ct) == ct \in {"XYM","XYZM"}
 V(i,ct) == <<XT[i], YT[i]>> \o (IF HasZ(ct) THEN <<XT[((i+3) % 9) + 1]>> ELSE <<>>) \o (IF HasM(ct) THEN <<XT[((i+5) % 9) + 1]>> ELSE <<>>)
 VM(k,ct) == <<MagT[k], MagT[((k+1) % 6) + 1]>> \o (IF HasZ(ct) THEN <<MagT[((k+2) % 6) + 1]>> ELSE <<>>) \o (IF HasM(ct) THEN <<MagT[((k+3) % 6) + 1]>> ELSE <<>>)
+ZP(ct) == <<ZeroTok, ZeroTok>> \o (IF HasZ(ct) THEN <<ZeroTok>> ELSE <<>>) \o (IF HasM(ct) THEN <<ZeroTok>> ELSE <<>>)
 G(t,ct,c) == [t |-> t, ct |-> ct, c |-> c]
 Tri(ct,b) == <<V(b,ct), V(b+1,ct), V(b+2,ct), V(b,ct)>>
 Quad(ct,b) == <<V(b,ct), V(b+1,ct), V(b+2,ct), V(b+3,ct), V(b,ct)>>
@@ -22,6 +23,9 @@ Base(ct) == <<
   G("LineString",ct,<<V(1,ct),V(2,ct),V(3,ct)>>), G("LineString",ct,Quad(ct,1)), G("LineString",ct,<<>>),
   G("Polygon",ct,<<Quad(ct,1), Tri(ct,5), Tri(ct,5), Tri(ct,2)>>), G("Polygon",ct,<<Tri(ct,1)>>), G("Polygon",ct,<<>>),
   G("MultiPoint",ct,<<V(1,ct),V(2,ct),V(1,ct),<<>>>>), G("MultiPoint",ct,<<>>),
+  \* the point whose ordinates are all zero next to an empty member: an empty Point stores no ordinates, not zeros
+  G("MultiPoint",ct,<<ZP(ct),V(2,ct),<<>>>>), G("MultiPoint",ct,<<ZP(ct)>>), G("Point",ct,ZP(ct)),
+  G("GeometryCollection",ct,<<G("Point",ct,ZP(ct)), G("Point",ct,<<>>), G("MultiPoint",ct,<<ZP(ct),<<>>>>)>>),
   G("MultiLineString",ct,<< <<V(1,ct),V(2,ct)>>, <<V(2,ct),V(1,ct)>>, <<>>, Tri(ct,3) >>),
   G("MultiPolygon",ct,<< <<Tri(ct,1)>>, <<Tri(ct,1)>>, <<Quad(ct,4),Tri(ct,2)>>, <<>> >>),
   G("GeometryCollection",ct,<<G("Point",ct,V(1,ct)), G("Point",ct,V(1,ct)), G("LineString",ct,<<V(1,ct),V(2,ct)>>), G("Point",ct,<<>>)>>),
@@ -48,6 +52,7 @@ EmptyOf(t, ct) == G(t, ct, <<>>)
 Descr(g) ==
   LET n == Len(g.c) IN
   {<<"same", <<>>, 0>>, <<"bump", <<>>, 0>>, <<"force", <<>>, 0>>, <<"asmulti", <<>>, 0>>}
+  \cup (IF g.t = "Point" /\ n > 0 THEN {<<"emptypt", <<>>, 0>>} ELSE {})
   \cup (IF n > 0 /\ g.t # "Point" THEN {<<"drop", <<>>, k>> : k \in 1..n} \cup {<<"empty", <<>>, k>> : k \in 1..n} ELSE {})
   \cup (CASE g.t = "LineString" -> {<<"rev", <<>>, 0>>} \cup (IF Closed(g.c) /\ n >= 4 THEN {<<"rot", <<>>, k>> : k \in 1..(n-2)} \cup {<<"rotrev", <<>>, k>> : k \in 1..(n-2)} ELSE {})
            [] g.t = "Polygon" -> (IF n = 0 THEN {} ELSE {<<"holes", p, 0>> : p \in PermsOf(1..(n-1))} \cup {<<"ringrot", <<>>, k>> : k \in 1..n} \cup {<<"ringsrev", <<>>, 0>>})
@@ -64,6 +69,7 @@ Variant(g, d) ==
     [] kind = "drop" -> [g EXCEPT !.c = SubSeq(g.c,1,k-1) \o SubSeq(g.c,k+1,n)]
     [] kind = "empty" -> (IF g.t = "GeometryCollection" THEN [g EXCEPT !.c[k] = EmptyOf(g.c[k].t, g.ct)]
                           ELSE IF g.t \in {"MultiPoint","MultiLineString","MultiPolygon"} THEN [g EXCEPT !.c[k] = <<>>] ELSE g)
+    [] kind = "emptypt" -> G(g.t, g.ct, <<>>)
     [] kind = "rev" -> [g EXCEPT !.c = RevSeq(g.c)]
     [] kind = "rot" -> [g EXCEPT !.c = RotRing(g.c, k)]
     [] kind = "rotrev" -> [g EXCEPT !.c = RevSeq(RotRing(g.c, k))]
